@@ -1,7 +1,7 @@
 """Reference lexer for Jsonnet written from the lexical grammar of the specification
 (jsonnet.org/ref/spec.html#lexing), working on bytes.  Returns tokens
-(kind, start, end, payload) or raises LexErr(start, end).  Text blocks are modelled for LF line
-endings; a text block whose lines contain CR raises Unmodelled (the caller skips the payload
+(kind, start, end, payload) or raises LexErr(start, end).  Text blocks: lines end with LF, a CR before it is
+content, a line of CR LF alone is blank; a stray CR right after ||| raises Unmodelled (the caller skips the payload
 comparison, the tiling monitor still applies)."""
 
 KEYWORDS = {"assert", "else", "error", "false", "for", "function", "if", "import", "importstr", "importbin", "in",
@@ -234,28 +234,36 @@ def verbatim(data, i, delim):
 
 
 def text_block(data, i):
-    """data[i:] starts with '|||'."""
+    """data[i:] starts with '|||'.  A line ends with LF; a CR before it is ordinary content, except that a line
+    consisting of CR LF alone is as blank as one consisting of LF alone.  Every line contributes exactly its bytes
+    after the indentation prefix (blank lines: all their bytes)."""
     n = len(data)
     i += 3
     chomp = False
     if i < n and data[i] == 0x2D:
         chomp = True
         i += 1
-    # optional horizontal whitespace, then a newline
-    while i < n and data[i] in b" \t\r":
-        if data[i] == 0x0D:
-            raise Unmodelled()
+    # optional horizontal whitespace, then a line break (LF or CR LF)
+    while i < n and data[i] in b" \t":
         i += 1
+    if i < n and data[i] == 0x0D:
+        i += 1
+        if i < n and data[i] != 0x0A:
+            raise Unmodelled()      # a stray CR after |||: the grammar does not say
     if i >= n or data[i] != 0x0A:
         raise LexErr("missing line break after |||")
     i += 1
     lines = []
     # leading blank lines
-    while i < n and data[i] == 0x0A:
-        lines.append(b"\n")
-        i += 1
-    if i < n and data[i] == 0x0D:
-        raise Unmodelled()
+    while i < n:
+        if data[i] == 0x0A:
+            lines.append(b"\n")
+            i += 1
+        elif data.startswith(b"\r\n", i):
+            lines.append(b"\r\n")
+            i += 2
+        else:
+            break
     # first line defines the prefix
     j = i
     while j < n and data[j] in b" \t":
@@ -269,14 +277,14 @@ def text_block(data, i):
             k = data.find(b"\n", i)
             if k < 0:
                 raise LexErr("unfinished text block")
-            line = data[i + len(prefix):k + 1]
-            if b"\r" in line:
-                raise Unmodelled()
-            lines.append(line)
+            lines.append(data[i + len(prefix):k + 1])
             i = k + 1
         elif i < n and data[i] == 0x0A:
             lines.append(b"\n")
             i += 1
+        elif data.startswith(b"\r\n", i):
+            lines.append(b"\r\n")
+            i += 2
         else:
             j = i
             while j < n and data[j] in b" \t":
@@ -284,8 +292,6 @@ def text_block(data, i):
             if data.startswith(b"|||", j):
                 i = j + 3
                 break
-            if i < n and data[i] == 0x0D:
-                raise Unmodelled()
             raise LexErr("bad text block termination")
     text = lossy(b"".join(lines))
     if chomp:
